@@ -51,6 +51,16 @@ def marker(kind, scen, uid, where="s"):
 
 def prepare(prog, case):
     """Attach emit instructions to every step (markers with the scenario placeholder)."""
+    # sub-steps of nested steps get program-wide unique ids
+    counter = 0
+    for f in prog["features"]:
+        for it in f["items"]:
+            subs = it["items"] if it["k"] == "r" else [it]
+            for sub in subs:
+                for s in sub["steps"]:
+                    for nested in s.get("sub") or []:
+                        nested["uid"] = "n%d" % counter
+                        counter += 1
     lv = case.get("levels") or ["WARNING"]
     lg = case.get("loggers") or ["vf"]
     k = 0
@@ -205,11 +215,14 @@ def check(case):
                 events += [(k, marker(k, name, s["uid"]), lvl, s["emit"]["logger"]) for k in KINDS]
             if called and outcome == "nest" and hook_emit:
                 # execute_steps(): the step hooks of the sub-steps run (and emit) as well
+                hooked = set((h, ident) for h, ident, _open in ref.hooks)
                 for sub in s["sub"]:
-                    events += [(k, marker(k, name, sub["uid"], "b"), "WARNING", "vf") for k in KINDS]
-                    events += [(k, marker(k, name, sub["uid"], "a"), "WARNING", "vf") for k in KINDS]
-                    if sub["o"] != "pass":
-                        break
+                    # which sub-step hooks run is decided by the reference model (a fault in a
+                    # sub-step hook ends the nested execution)
+                    if ("before_step", sub["uid"]) in hooked:
+                        events += [(k, marker(k, name, sub["uid"], "b"), "WARNING", "vf") for k in KINDS]
+                    if ("after_step", sub["uid"]) in hooked:
+                        events += [(k, marker(k, name, sub["uid"], "a"), "WARNING", "vf") for k in KINDS]
             post = []
             if hook_emit:
                 post = [(k, marker(k, name, s["uid"], "a"), "WARNING", "vf") for k in KINDS]
